@@ -11,8 +11,7 @@ theorem parseLiteralFails_eq (sc : String) (v : Value) : parseLiteralFails sc v 
   by_cases hsp : specifiedScalars.contains sc = true
   · simp only [hsp, ↓reduceIte, Option.some.injEq]
     split <;> simp_all
-  · simp only [hsp, Bool.false_eq_true, ↓reduceIte]
-    cases v <;> rfl
+  · simp only [hsp, Bool.false_eq_true, ↓reduceIte, Bool.not_not]
 
 theorem scalarErrs_zero_iff (s : SchemaD) (t : TI) (v : Value) :
     scalarErrs s t v = 0 ↔ ∀ it, t.inputType = some it → isScalar s it.base = true ∧ scalarAccepts it.base v = true := by
@@ -60,9 +59,10 @@ theorem okT_iff (s : SchemaD) (fx : Fixes) (n : Node) (t : TI) : okT s fx (n, t)
       rcases hopt with hit | ⟨it, hit⟩
       · simp [okT, vocBad, vocF, vocS, valueNodeOk, TI.iview, hit, scalarErrs_dead]
       · by_cases hi : isInputObject s it.base = true
-        · simp only [okT, vocBad, vocF, valueNodeOk, TI.iview, hit, Option.map_some, hi, Bool.not_true,
-            Bool.false_eq_true, false_implies, ↓reduceIte, true_and, forall_const, Option.some.injEq, forall_eq',
-            List.length_eq_zero_iff, List.filter_eq_nil_iff, false_and, or_false]
+        · have hb : vocBad s (.value (.obj fs)) t = false := by simp [vocBad, hit, hi]
+          simp only [okT, hb, Bool.false_eq_true, false_implies, true_and, forall_const, vocF, valueNodeOk, TI.iview, hit,
+            Option.map_some, hi, ↓reduceIte, Option.some.injEq, forall_eq', List.length_eq_zero_iff,
+            List.filter_eq_nil_iff, false_and, or_false]
           constructor
           · intro h
             refine Or.inl fun fd hfd hreq => ?_
@@ -74,12 +74,17 @@ theorem okT_iff (s : SchemaD) (fx : Fixes) (n : Node) (t : TI) : okT s fx (n, t)
               · simp [hreq, h fd hfd hreq]
               · simp [hreq]
             · exact absurd h.1 (by simp)
-        · have hb : vocBad s (.value (.obj fs)) t = true := by simp [vocBad, hit, hi]
-          have hz := scalarErrs_zero_iff s t (.obj fs)
+        · have hz := scalarErrs_zero_iff s t (.obj fs)
           simp only [hit, Option.some.injEq, forall_eq'] at hz
-          simp only [okT, hb, forall_const, Bool.true_eq_false, false_implies, and_true, valueNodeOk, TI.iview, hit,
-            Option.some.injEq, forall_eq', hi, Bool.false_eq_true, false_and, false_or, true_and, vocS]
-          exact hz
+          by_cases h0 : scalarErrs s t (.obj fs) = 0
+          · have hb : vocBad s (.value (.obj fs)) t = false := by simp [vocBad, hit, hi, h0]
+            simp only [okT, hb, Bool.false_eq_true, false_implies, true_and, forall_const, vocF, valueNodeOk, TI.iview,
+              hit, Option.map_some, hi, ↓reduceIte, Option.some.injEq, forall_eq', false_and, false_or]
+            exact ⟨fun _ => hz.mp h0, fun _ => trivial⟩
+          · have hb : vocBad s (.value (.obj fs)) t = true := by simp [vocBad, hit, hi, h0]
+            simp only [okT, hb, forall_const, Bool.true_eq_false, false_implies, and_true, valueNodeOk, TI.iview, hit,
+              Option.some.injEq, forall_eq', hi, Bool.false_eq_true, false_and, false_or, true_and, vocS]
+            exact hz
   | objField name =>
     simp only [okT, vocBad, vocF, valueNodeOk, outerObject_iview, Bool.false_eq_true, false_implies, true_and,
       forall_const]
